@@ -1,0 +1,22 @@
+//go:build verif
+
+// Package verifhook provides scheduling points for the verification harness in /verif.
+//
+// The package only does something when the module is built with the `verif` build tag;
+// without the tag Point is an empty function that the compiler inlines away.
+package verifhook
+
+var hook func(site string)
+
+// Set installs the function that is called at every scheduling point.
+func Set(f func(site string)) {
+	hook = f
+}
+
+// Point marks a place at which the verification harness may switch to another call that
+// is running concurrently.
+func Point(site string) {
+	if hook != nil {
+		hook(site)
+	}
+}
